@@ -36,6 +36,9 @@ func drawC06(t *rapid.T) caseC06 {
 		classes = append(classes, "k128", "m1")
 	}
 	c.Data = gen.DrawRecipe(t, 4, 4<<20, classes...)
+	if c.Cfg.EffDict() <= 1<<20 && rapid.IntRange(0, 14).Draw(t, "edge") == 0 {
+		c.Data = gen.EdgeRecipe(t, c.Cfg.EffDict())
+	}
 	if c.Cfg.Matcher == 1 {
 		c.Data = clampForBT(c.Data, 12000)
 	}
